@@ -275,6 +275,41 @@ func (a *Adversary) prePrepare(leader, round int64, wellFormed bool) *Msg {
 		just = append(just, rc)
 	}
 	val := a.value()
+	if !wellFormed && round > 1 && a.Rng.Intn(4) == 0 {
+		// Self-made prepared claim: the leader's own ROUND-CHANGE claims (p, B) with p at least as high as
+		// every prepared round among the chosen ones, "proved" by its own PREPARE(p, B) repeated a quorum
+		// of times (duplicate votes of one source), optionally mixed with the coalition's PREPAREs.
+		a.StratCount["pp-forged/self-prepared-claim-duplicate-votes"]++
+		p := hpr
+		if p == 0 || (p+1 < round && a.Rng.Intn(2) == 0) {
+			p++
+		}
+		b := val
+		for i := 0; i < 4 && b == hpv; i++ {
+			b = a.value()
+		}
+		just = just[:0]
+		for _, rc := range qrc {
+			if rc.Src == leader {
+				continue
+			}
+			just = append(just, rc)
+		}
+		just = append(just, a.mk(qbft.MsgRoundChange, leader, round, 0, p, b, nil).Flat())
+		var votes []QMsg
+		if a.Rng.Intn(2) == 0 {
+			for _, bz := range a.Byz {
+				votes = append(votes, a.mk(qbft.MsgPrepare, bz, p, b, 0, 0, nil).Flat())
+			}
+		}
+		own := a.mk(qbft.MsgPrepare, leader, p, b, 0, 0, nil).Flat()
+		for len(votes) < Quorum(a.N) {
+			votes = append(votes, own)
+		}
+		just = append(just, votes...)
+
+		return a.mk(qbft.MsgPrePrepare, leader, round, b, 0, 0, just)
+	}
 	if hpr > 0 {
 		var prepares []QMsg
 		if oj := a.rcJust[hmsg.ID]; len(oj) > 0 {
